@@ -18,7 +18,7 @@ LEVEL_TEXT = (
     'lengths) are value-level statements that no structural rule here decides: a change that breaks '
     'them while keeping the shape is NOT detected.')
 
-FLOORS = {'C20-R1': 3, 'C20-R2': 3, 'C20-R3': 2, 'C10-R5': 1, 'C20-R4': 2}
+FLOORS = {'C20-R1': 3, 'C20-R2': 3, 'C20-R3': 2, 'C10-R5': 1, 'C20-R4': 5}
 
 DNM = 'util::densenatmap::DenseNatMap'
 
@@ -151,3 +151,29 @@ def run(ctx):
         ctx.check(src is not None and src.fields()[-1:] == ('.0',) and src.key == 1, 'C20-R4', 'hash-of-components', body,
                   good='the hashed slice is a prefix of the clock\'s components',
                   bad='VectorClock::hash does not hash the clock components')
+        vclock_no_binary_search(ctx, F)
+
+
+def vclock_no_binary_search(ctx, F):
+    """Trailing zeros are found by looking at the components, not by bisecting them: a clock is not sorted or
+    partitioned (`<1, 0, 1>`), so a binary search for the cut-off gives length-dependent answers and equal
+    clocks stop hashing / comparing equally."""
+    from common import bodies_with_closures
+    n = 0
+    for b in F.bodies.values():
+        if b.kind == 'Closure' or 'vector_clock::VectorClock' not in b.path:
+            continue
+        if not re.search(r'::(hash|eq|partial_cmp|cmp|merge_max)$', b.path):
+            continue
+        n += 1
+        ctx.touched(b)
+        bad = [c for x in bodies_with_closures(F, b) for c in x.calls
+               if c.is_('slice::partition_point', 'slice::binary_search', 'slice::binary_search_by',
+                        'slice::binary_search_by_key')]
+        ctx.check(not bad, 'C20-R4', 'no-bisection@%s' % b.path.split('::')[-1], b,
+                  good='the components are scanned, not bisected',
+                  bad='%s bisects the components (%s): a vector clock is neither sorted nor partitioned into '
+                      'non-zero / zero, so the result depends on the physical length and equal clocks are told apart'
+                      % (b.path, [c.short.split('::')[-1] for c in bad]))
+    if n < 3:
+        raise AnchorMissing('VectorClock hash/eq/partial_cmp (found %d)' % n)
